@@ -235,7 +235,9 @@ impl Property for C16 {
         ];
         let degree = prop_oneof![select(vec![1u128, 2, 3, 4, 5, 7, 10, 16, 63, 64, 65, 100, 1000]), (1u128..40)];
         prop_oneof![
-            10 => (z(8), z(8)).prop_map(|(a, b)| Case::new("xs.arith", vec![a, b])),
+            6 => (z(8), z(8)).prop_map(|(a, b)| Case::new("xs.arith", vec![a, b])),
+            // divisions from the add-back / top-digit-equal families (a debug_assert-only correction would differ between profiles)
+            6 => (any::<bool>(), any::<bool>(), gen::div_pair(12)).prop_map(|(sa, sb, (a, b))| Case::new("xs.arith", vec![Arg::Z(sa, a), Arg::Z(sb, b)])),
             25 => (radix_val, 2u128..=36, 2u128..=256).prop_map(|(a, r, r2)| Case::new("xs.radix", vec![a, Arg::U(r), Arg::U(r2)])),
             6 => ("[+-]?[0-9a-zA-Z_]{0,40}", 2u128..=36).prop_map(|(s, r)| Case::new("xs.parse", vec![Arg::S(s), Arg::U(r)])),
             22 => (root_val, degree).prop_map(|(a, n)| Case::new("xs.root", vec![a, Arg::U(n)])),
@@ -243,7 +245,13 @@ impl Property for C16 {
             5 => any::<u64>().prop_map(|b| Case::new("xs.fromf", vec![Arg::U(b as u128)])),
             6 => (z(6), gen::shift_amount(6)).prop_map(|(a, k)| Case::new("xs.shift", vec![a, Arg::U(k as u128)])),
             6 => (z(4), 0u128..48).prop_map(|(a, w)| Case::new("xs.fmt", vec![a, Arg::U(w)])),
-            4 => (z(4), gen::nat(2), z(3)).prop_map(|(a, e, m)| Case::new("xs.modpow", vec![a, Arg::N(e), m])),
+            3 => (z(4), gen::nat(2), z(3)).prop_map(|(a, e, m)| Case::new("xs.modpow", vec![a, Arg::N(e), m])),
+            // Montgomery edge family: modulus B^n - small / all-ones, base just below it
+            4 => (1usize..=3, 1u64..=3, 1u64..=3, gen::nat(1), any::<bool>()).prop_map(|(n, dm, db, e, sm)| {
+                let m = Nat::pow2(64 * n as u64).sub(&Nat::from_u64(2 * dm - 1));
+                let b = m.sub(&Nat::from_u64(db));
+                Case::new("xs.modpow", vec![Arg::Z(false, b.to_u64_digits()), Arg::N(e), Arg::Z(sm, m.to_u64_digits())])
+            }),
             4 => z(3).prop_map(|a| Case::new("xs.prim", vec![a])),
             8 => (prop_oneof![70 => Just(true), 30 => Just(false)], crate::props::c07::bit_nat(5), any::<u8>(), any::<u64>()).prop_map(|(s, a, sel, off)| {
                 let i = crate::props::c07::bit_index(&a, sel % 10, off, 0);
